@@ -20,6 +20,33 @@ func genC13(p *Plan, r *RNG) {
 		}
 		peers = append(peers, fmt.Sprintf("%s:%d", ip, 5000+i*7))
 	}
+	if r.Chance(1, 40) {
+		// many peers: every one gets a channel number of its own, all inside 0x4000-0x7FFF
+		// (one IP, many ports: a single permission covers them)
+		p.Flavor = "relay-manypeers"
+		n := r.PickInt([]int{40, 200, 700})
+		if p.Tier == "thorough" && r.Chance(1, 25) {
+			n = r.PickInt([]int{5000, 16384})
+		}
+		p.Ops = append(p.Ops, Op{Actor: "app", Kind: "alloc", At: gap(10 * ms)})
+		for i := 0; i < n; i++ {
+			g := int64(r.Range(1, 30)) * ms
+			if i == 0 {
+				g = 500 * ms
+			}
+			p.Ops = append(p.Ops, Op{Actor: fmt.Sprintf("app%d", i%3), Kind: "writeto", At: gap(g), A: OpArgs{Peer: fmt.Sprintf("10.0.2.1:%d", 10000+i), Len: 12}})
+		}
+		p.Ops = append(p.Ops, Op{Actor: "app", Kind: "wait", At: gap(3 * sec)})
+		for k := 0; k < 6; k++ {
+			i := r.Intn(n)
+			p.Ops = append(p.Ops, Op{Actor: fmt.Sprintf("app%d", i%3), Kind: "writeto", At: gap(50 * ms), A: OpArgs{Peer: fmt.Sprintf("10.0.2.1:%d", 10000+i), Len: 20}})
+			p.Ops = append(p.Ops, Op{Actor: "srv", Kind: "srv_chandata", At: gap(20 * ms), A: OpArgs{Chan: 0x4000 + r.Intn(n), Len: 16}})
+			p.Ops = append(p.Ops, Op{Actor: "app", Kind: "readfrom", At: gap(20 * ms)})
+		}
+		p.Ops = append(p.Ops, Op{Actor: "app", Kind: "bind_txn", At: gap(2 * sec), A: OpArgs{Flags: []string{"probe"}}})
+		p.QuietNS = 20 * sec
+		return
+	}
 	tcp := r.Chance(1, 6)
 	if tcp {
 		p.Flavor = "relay-tcpalloc"
